@@ -5,6 +5,7 @@ import Holpy.C19.Linearity
 import Holpy.C19.Rules
 import Holpy.C19.Rules2
 import Holpy.C19.DerivFix
+import Holpy.C19.Poly
 /-
 Line protocol for the C19 model (one s-expression in, one out).
 
@@ -26,6 +27,9 @@ Line protocol for the C19 model (one s-expression in, one out).
   (getcoeff L NE) -> EXPR     (ibe L NE C) -> EXPR        IntegrateByEquation: get_coeff, result before normalize
   (isqrt I) (iexp I) (ilog I) -> SIVAL = (SB SB T|F T|F), SB = -oo | oo | (NUM DEN) | (app NAME NUM DEN)
   (icontained I J) -> T|F        (iinter I J) -> IVAL
+  (normalize (EXPR ...) EXPR) -> (ok EXPR) | zerodiv | valueerr | unsupported   poly.normalize on the polynomial
+                                  fragment; first argument: the bases for which Conditions.is_nonzero said True
+  (exprlt A B) -> T|F            Expr.__lt__
   (iadd I J) (isub I J) (ineg I) (imul I J) (iinv I) (idiv I J) (ipow I N) -> IVAL | raises
 -/
 open Holpy Holpy.C19
@@ -194,6 +198,19 @@ def handle (line : String) : String :=
   | some (.list [.atom "split", c, e]) =>
     match exprOf c, exprOf e with
     | some c, some e => toString (exprTo (splitM c e))
+    | _, _ => "bad-op"
+  | some (.list [.atom "normalize", .list nz, e]) =>
+    match nz.mapM exprOf, exprOf e with
+    | some nz, some e =>
+      match normalizeM nz e with
+      | .ok r => toString (Sexp.list [.atom "ok", exprTo r])
+      | .error .zeroDiv => "zerodiv"
+      | .error .valueErr => "valueerr"
+      | .error .unsupported => "unsupported"
+    | _, _ => "bad-op"
+  | some (.list [.atom "exprlt", a, b]) =>
+    match exprOf a, exprOf b with
+    | some a, some b => toString (Sexp.ofBool (ltE a b))
     | _, _ => "bad-op"
   | some (.list [.atom "iadd", i, j]) =>
     match ivalOf i, ivalOf j with
